@@ -579,6 +579,20 @@ func (w *world) apply(op Op) (f *evid.Failure) {
 				w.keep("Marshal output", b, false, -1)
 			}
 		}
+	case "marshal-sized":
+		// an output of exactly op.N bytes (buffer capacities are powers of two and allocator size classes:
+		// a result that fills the pooled buffer to the last byte must still be the caller's own)
+		if op.N >= 2 {
+			fill := byte('a' + op.N%26)
+			if b, err := segjson.Marshal(strings.Repeat(string(fill), op.N-2)); err == nil {
+				w.keep(fmt.Sprintf("Marshal output of %d bytes", len(b)), b, false, -1)
+			}
+			if op.N >= 8 {
+				if b, err := segjson.Marshal([]string{strings.Repeat(string(fill), op.N-6)}); err == nil {
+					w.keep(fmt.Sprintf("Marshal output of %d bytes", len(b)), b, false, -1)
+				}
+			}
+		}
 	case "encoder":
 		// the bytes handed to Write belong to the writer until Write returns: this writer uses the package
 		// itself (and, with Par, lets another goroutine do so) before it consumes them
@@ -722,6 +736,13 @@ func TestHistories(t *testing.T) {
 			},
 			"tokenizer": func(rt *rapid.T) { step(Op{Kind: "tokenizer", Docs: genDocs(rt, 0)}) },
 			"marshal":   func(rt *rapid.T) { step(Op{Kind: "marshal", Docs: genDocs(rt, 1)}) },
+			"marshal-sized": func(rt *rapid.T) {
+				n := rapid.SampledFrom([]int{512, 1024, 2048, 4096, 4096, 4096, 8192, 16384, 32768, 65536, 131072, 6144, 12288, 3072, 5120, 9472, 10240}).Draw(rt, "size") + rapid.SampledFrom([]int{0, 0, 0, -1, 1, -2, 2}).Draw(rt, "sized")
+				if rapid.IntRange(0, 4).Draw(rt, "anysize") == 0 {
+					n = rapid.IntRange(2, 20000).Draw(rt, "size2")
+				}
+				step(Op{Kind: "marshal-sized", N: n})
+			},
 			"encoder": func(rt *rapid.T) {
 				step(Op{Kind: "encoder", Docs: genDocs(rt, 1), N: rapid.IntRange(0, 5).Draw(rt, "encn"), Par: rapid.Bool().Draw(rt, "encpar")})
 			},
